@@ -362,6 +362,13 @@ def r20b(rep, prog):
             xv = ex.var_of(arg) if arg is not None else None
             if arg is not None and common.option_atom(arg) == ('opt', 'cores'):
                 rep.ok('R20c', kcall, main, whatv, 'option value passed directly')
+            elif xv is None and arg is not None and arg.strip_all().k == 'ConditionalOperator' and [
+                    a_ for a_ in (common.option_atom(x_) for x_ in [arg.strip_all().cond.strip_all()] + list(arg.strip_all().cond.walk()))
+                    if a_ is not None and a_[1] != 'cores']:
+                other = [a_ for a_ in (common.option_atom(x_) for x_ in [arg.strip_all().cond.strip_all()] + list(arg.strip_all().cond.walk()))
+                         if a_ is not None and a_[1] != 'cores'][0]
+                rep.violation('R20c', kcall, main, whatv, 'the value handed to the knob is selected by the unrelated option --%s (`%s`): with that option the requested number of '
+                              'cores is replaced by another value' % (other[1], arg.text(50)), key='R20c|%s|value-by-other-option' % os.path.basename(prog.tu))
             elif xv is None:
                 rep.undecided('R20c', kcall, main, whatv, 'argument `%s` is not a variable' % (arg.text(30) if arg is not None else '?'))
             elif knob_value_cases(kfn, arg) is not None and len(ex.assignments_to(kfn, xv)) == 1:
@@ -691,6 +698,26 @@ def _atom(leaf):
     return None
 
 
+def r20f(rep, prog):
+    """the knob destroys the control object of the previous call: `owner.release()` only gives up ownership (the object stays alive for the rest of
+    the process), and TBB applies the minimum over all live controls - a later, larger request is then silently ignored."""
+    what = 'the previous tbb::global_control is destroyed (reset / assignment), never merely released'
+    n = 0
+    for fn in prog.fns(common.KNOB):
+        for c in fn.walk():
+            if c.k == 'CXXMemberCallExpr' and c.callee and c.callee['name'] == 'release' and c.object_arg() is not None and \
+                    'unique_ptr' in ((prog.base_type(c.object_arg().strip_all().j.get('t')) or {}).get('canon') or ''):
+                n += 1
+                up = c.top_transparent().parent
+                used = up is not None and up.k not in ('CompoundStmt', 'ExprWithCleanups', 'IfStmt', 'ForStmt', 'WhileStmt')
+                if not used:
+                    rep.violation('R20f', c, fn, what, '`%s` drops the pointer without deleting the control: it stays in force for the rest of the process, and since TBB takes '
+                                  'the minimum of all live controls no later call can raise the limit again' % c.text(30), key='R20f|%s|release' % fn.g)
+                else:
+                    rep.undecided('R20f', c, fn, what, 'the released pointer is used by `%s`' % up.text(40))
+    return n
+
+
 UNLIMITED_SPAWN = ('enqueue', 'async', 'pthread_create')
 UNLIMITED_TYPES = ('std::thread', 'std::jthread', 'boost::thread')
 
@@ -720,6 +747,7 @@ def r20e(rep, prog):
 
 def run(rep, tier):
     rep.rule('R20e', 'no unlimited thread / enqueue in the library', floor=0)
+    rep.rule('R20f', 'the knob never leaks a live control object', floor=0)
     rep.rule('R20a', 'the TBB control object outlives set_global_tbb_concurrency and is re-created on every call', floor=1)
     rep.rule('R20b', 'demos call the knob whenever a parallel algorithm is selected, independent of unrelated flags', floor=2)
     rep.rule('R20c', 'the knob receives the value of --cores', floor=2)
@@ -733,6 +761,7 @@ def run(rep, tier):
         knob_seen += r20a(rep, prog)
         mains_seen += r20b(rep, prog)
         r20e(rep, prog)
+        r20f(rep, prog)
         for m_ in common.mains(prog):
             if any(s_.value and re.match(r'^cores(,|$)', s_.value) for s_ in ex.string_literals(m_.body)):
                 store_order(rep, prog, m_)
